@@ -274,6 +274,14 @@ func runC09(c C09Case, rounds int, rec *recorder) error {
 						}
 					default:
 						if (gi+r)%2 == 0 {
+							if (gi+r)%4 == 0 && len(osrcs) > 0 {
+								// a bundle that is rejected (a syntax error in the middle of a file, text and
+								// tags on the lines after it): error reporting is concurrent use too
+								bad := append([]string{}, osrcs...)
+								bad[0] = strings.Replace(bad[0], "{template ", "/** */\n{template .zzBad"+strconv.Itoa(gi)+"}\n{if $a == }\nline one\n  line two\n{/if}\nmore\n{/template}\n\n/** */\n{template ", 1)
+								compileBundle(onames, bad, c.Other.Prog.Globals)
+								break
+							}
 							compileBundle(onames, osrcs, c.Other.Prog.Globals)
 							break
 						}
